@@ -257,6 +257,38 @@ func ruleC20(r *Report) {
 						}
 					}
 				}
+				// ... and the same for a slice published through a guarded map: appending into a re-slice of the stored value, or
+				// copying into it, overwrites the backing array that a reader took out of the map and decodes after unlocking
+				if c, ok := in.(*ssa.Call); ok {
+					if bi, ok := c.Call.Value.(*ssa.Builtin); ok && (bi.Name() == "append" || bi.Name() == "copy") && len(c.Call.Args) > 0 {
+						dst := c.Call.Args[0]
+						resliced := false
+						for {
+							if sl, ok := dst.(*ssa.Slice); ok {
+								dst = sl.X
+								resliced = true
+								continue
+							}
+							break
+						}
+						if ex, ok := dst.(*ssa.Extract); ok {
+							dst = ex.Tuple
+						}
+						if lk, ok := dst.(*ssa.Lookup); ok && (resliced || bi.Name() == "copy") {
+							if ld, ok := lk.X.(*ssa.UnOp); ok {
+								if fa, ok := ld.X.(*ssa.FieldAddr); ok {
+									if n := namedOf(fa.X.Type()); n != nil {
+										key := n.Obj().Name() + "." + fieldName(fa.X.Type(), fa.Field)
+										if _, guarded := guard[key]; guarded {
+											r.Bad("C20.guarded", fmt.Sprintf("%s: write into the backing array of a slice taken from %s", fname, key), p.InstrPos(in),
+												"the stored slice is reused in place ("+bi.Name()+" into a re-slice of the map's value): a reader that took the same slice out of the map reads it outside the critical section, so it sees a blend of the old and the new record; the value must be replaced by a fresh slice")
+										}
+									}
+								}
+							}
+						}
+					}
+				}
 				// calls while holding locks
 				ci, ok := in.(ssa.CallInstruction)
 				if !ok {
